@@ -9,6 +9,50 @@ KINDS = {
     "dummy_SST": ["dc", "ds"], "dummy_STG": ["dc", "ds"], "dummy_ID": ["dc", "ds"],
 }
 FACTORS = ["1", "1.5", "2", "3.7"]
+MODELLED = ("co", "st", "pr")   # kinds with a Lean model (Crusta/Model/Dyn.lean) replayed call by call
+
+
+def impl_stream(impl):
+    out = []
+    dead = False
+    for l in impl:
+        t = l.split(" ")
+        if l.startswith("S "):
+            if dead:
+                continue   # destructor calls while a panic unwinds
+            if len(t) == 3 and t[2] == "k":
+                dead = True
+            out.append(" ".join(x for x in t if x))
+        elif l.startswith("U "):
+            out.append("U %s %s" % (t[1], t[2]))
+        elif l.startswith("Q "):
+            dead = False
+            out.append(l)
+        elif l.startswith("ans "):
+            out.append("ans %s %s" % (t[2], t[3]))
+        elif l.startswith("panic"):
+            out.append("panic")
+    return out
+
+
+def model_stream(model):
+    out = []
+    stopped = False
+    for l in model:
+        t = l.split(" ")
+        if l.startswith("T "):
+            out.append(" ".join(x for x in t[1:] if x))
+        elif l.startswith("mU "):
+            out.append("U %s %s" % (t[1], t[2]))
+        elif l.startswith("mQ "):
+            out.append("Q %s %s" % (t[1], t[2]))
+        elif l.startswith("mans ACC"):
+            out.append("ans %s %s" % (t[2], t[3]))
+        elif l.startswith("mans "):
+            out.append("panic")
+        elif l == "mstop":
+            stopped = True
+    return out, stopped
 
 
 def gen_history(rng, kind, length, bad_rate=0.0):
@@ -91,7 +135,8 @@ class DynProperty(Property):
             for _ in range(k):
                 toks = gen_history(rng, kind, rng.randint(5, 40 if tier == "quick" else 60), self.bad_rate)
                 f = " factor=%s" % rng.choice(FACTORS) if kind.endswith("_att") else ""
-                lines.append("dyn x kind=%s%s hist=%s" % (kind, f, ";".join(toks)))
+                tr = " trace=1" if kind in MODELLED else ""
+                lines.append("dyn x kind=%s%s%s hist=%s" % (kind, f, tr, ";".join(toks)))
         return lines
 
     def judge(self, case_line, impl, model):
@@ -108,6 +153,18 @@ class DynProperty(Property):
                     what = "an invalid update (%s) was not reported as an error by the update call" % t[1] if exp == "err" else "a valid or redundant update (%s) was rejected" % t[1]
                     fs.append(Finding("input", case_line, what, "%s · update result %s expected %s" % (kind, t[2], exp)))
                     return fs
+        if kind in MODELLED and "trace=1" in case_line:
+            a = impl_stream(impl)
+            b, stopped = model_stream(model)
+            if stopped:
+                a = a[:len(b)]
+            if a != b:
+                i = 0
+                while i < min(len(a), len(b)) and a[i] == b[i]:
+                    i += 1
+                fs.append(Finding("correspondence", case_line,
+                                  "the dynamic solver and its Lean model (Crusta.Dyn) differ at event %d: impl %r model %r" % (i, a[i] if i < len(a) else None, b[i] if i < len(b) else None),
+                                  "%s · model differs" % kind, {"impl": a[max(0, i - 3):i + 3], "model": b[max(0, i - 3):i + 3]}))
         for v in model:
             if v.startswith("verdict BAD") or v.startswith("verdict PANIC"):
                 reason = v.split(" ", 3)[3] if v.startswith("verdict BAD") else "query panicked: " + ([l for l in impl if l.startswith("panic")] or ["panic ?"])[0][6:90]
@@ -144,7 +201,20 @@ class DynProperty(Property):
                     q[kind + " " + x.split(" ")[2]] += 1
                 if x.startswith("U "):
                     upd[" ".join(x.split(" ")[2:4])] += 1
-        return {"distribution": {"histories_per_solver": dict(c), "answers": dict(q), "update_results": dict(upd)}}
+        traced = 0
+        events = 0
+        cache_hits = 0
+        for l in cases:
+            if "trace=1" in l:
+                m = model.get(l.split(" ")[1], [])
+                traced += 1
+                events += len([x for x in m if x.startswith("T ")])
+                for i, x in enumerate(m):
+                    if x.startswith("mQ ") and i + 1 < len(m) and m[i + 1].startswith("mans ACC"):
+                        cache_hits += 1
+        return {"distribution": {"histories_per_solver": dict(c), "answers": dict(q), "update_results": dict(upd),
+                                 "histories_replayed_on_lean_model": traced, "sat_interface_events_compared": events,
+                                 "queries_answered_from_cache": cache_hits}}
 
 
 class C08(DynProperty):
